@@ -9,11 +9,13 @@
 (***************************************************************************)
 EXTENDS GroupChain, Json
 
-CONSTANTS Depth, Forks
+CONSTANTS Depth, Forks, Concs,
+          Early   \* BOOLEAN: FALSE = as coded; TRUE = predecessor compared before the lock (negative control)
 VARIABLE hist
 gvars == <<vars, hist>>
 
-Rec(o, g, p) == [op |-> o, g |-> g, pre |-> p, ids |-> <<>>]
+NoB == [op |-> "none", g |-> 0, pre |-> 0]
+Rec(o, g, p) == [op |-> o, g |-> g, pre |-> p, ids |-> <<>>, b |-> NoB, first |-> "a"]
 
 Apply(post) == /\ store' = post.store /\ hidx' = post.hidx
                /\ count' = post.count /\ last' = post.last
@@ -46,7 +48,16 @@ GenRestart ==
 GenFork(anc, ids) ==
   /\ pc = "idle" /\ store[anc].present
   /\ Apply(ForkPost(store, hidx, count, last, anc, ids))
-  /\ hist' = Append(hist, [op |-> "Fork", g |-> anc, pre |-> 0, ids |-> ids])
+  /\ hist' = Append(hist, [op |-> "Fork", g |-> anc, pre |-> 0, ids |-> ids, b |-> NoB, first |-> "a"])
+
+(* two overlapping calls (see GroupChain!ConcPost): an add against an add or a removal *)
+GenConc(g, p, b, first) ==
+  /\ pc = "idle" /\ count < MaxCount - 1 /\ Len(hist) = Depth - 1
+  /\ p \in AllIds /\ store[p].present
+  /\ (b.op = "Add" => (b.pre \in AllIds /\ store[b.pre].present))
+  /\ Apply(ConcPost(store, hidx, count, last, [g |-> g, pre |-> p], b, first, Early).r)
+  /\ hist' = Append(hist, [op |-> "Conc", g |-> g, pre |-> p, ids |-> <<>>, b |-> b, first |-> first])
+ConcBs == {[op |-> "Remove", g |-> 0, pre |-> 0]} \cup {[op |-> "Add", g |-> g, pre |-> p] : g \in Ids, p \in AllIds}
 
 ForkSeqs == {<<a>> : a \in Ids} \cup {s \in Ids \X Ids : s[1] # s[2]}
 
@@ -54,6 +65,7 @@ GenNext ==
   /\ Len(hist) < Depth
   /\ \/ \E g \in Ids : GenAdd(g)
      \/ \E anc \in AllIds, ids \in ForkSeqs : Forks /\ GenFork(anc, ids)
+     \/ \E g \in Ids, p \in AllIds, b \in ConcBs, first \in {"a", "b"} : Concs /\ GenConc(g, p, b, first)
      \/ \E g \in Ids, p \in AllIds : GenAddRejected(g, p)
      \/ GenRemove
      \/ GenRestart
